@@ -258,6 +258,14 @@ func (f *fetcher) getFromCacheOrFetch(req *http.Request, key cache.CacheKey, cli
 		return fetchResult{}, ErrNotCacheable
 	}
 
+	if !cached.Stale && !f.cfg.Proxy.CachePolicy.IgnoreCacheControl.Read() &&
+		headers.ParseHeaderDirective(cached.Metadata.Object.Header).ForbidsReuse(cached.Metadata.TimeWritten) {
+		// Stored while cache directives were ignored. They are honoured again, so a response the origin
+		// marked no-store, no-cache, private, max-age=0 or already expired is not answered from the store: ask the origin.
+		slog.Debug("Cached response forbids reuse and cache directives are honoured, treating as stale.", "url", req.URL, "key", key)
+		cached.Stale = true
+	}
+
 	if !cached.Stale {
 		slog.Debug("Cache hit, returning cached response.", "url", req.URL, "key", key)
 		fetchInfo := fetchInfo{Status: hitStatusHit}
